@@ -48,9 +48,10 @@ class DPT2ByteSigned(DPTNumeric):
     def to_knx(cls, value: int | float) -> DPTArray:
         """Serialize to KNX/IP raw data."""
         try:
-            knx_value = round(float(value) / cls.resolution)
-            if not (cls.value_min <= knx_value <= cls.value_max):
+            value = float(value)
+            if not (cls.value_min <= value <= cls.value_max):
                 raise ValueError("Value out of range")
+            knx_value = round(value / cls.resolution)
             return DPTArray(struct.pack(cls._struct_format, knx_value))
         except (TypeError, ValueError, OverflowError, struct.error) as err:
             raise ConversionError(
@@ -82,6 +83,8 @@ class DPTDeltaTime10Msec(DPT2ByteSigned):
     dpt_main_number = 8
     dpt_sub_number = 3
     value_type = "delta_time_10ms"
+    value_min = -327680
+    value_max = 327670
     resolution = 10
     unit = "ms"
 
@@ -92,6 +95,8 @@ class DPTDeltaTime100Msec(DPT2ByteSigned):
     dpt_main_number = 8
     dpt_sub_number = 4
     value_type = "delta_time_100ms"
+    value_min = -3276800
+    value_max = 3276700
     resolution = 100
     unit = "ms"
 
@@ -129,6 +134,8 @@ class DPTPercentV16(DPT2ByteSigned):
     dpt_main_number = 8
     dpt_sub_number = 10
     value_type = "percentV16"
+    value_min = -327.68
+    value_max = 327.67
     resolution = 0.01
     unit = "%"
 
